@@ -39,11 +39,16 @@ type raceCase struct {
 func genRace(t *rapid.T) raceCase {
 	n := rapid.IntRange(2, 8).Draw(t, "goroutines")
 	var c raceCase
+	// a small pool of key values used by ALL goroutines (sessions of one device group share keys; per-key caches are shared state)
+	pool := []ref.Key{gen.Key(t, "pool0"), gen.Key(t, "pool1")}
 	for g := 0; g < n; g++ {
 		var l []raceOp
 		k := rapid.IntRange(3, 14).Draw(t, "ops")
 		for i := 0; i < k; i++ {
 			key := gen.Key(t, "key")
+			if rapid.IntRange(0, 2).Draw(t, "sharedkey") != 0 {
+				key = pool[rapid.IntRange(0, 1).Draw(t, "poolidx")]
+			}
 			switch rapid.SampledFrom([]string{"decode", "decode", "mic", "crypt", "lookup", "register", "register", "band", "yield"}).Draw(t, "op") {
 			case "decode":
 				l = append(l, raceOp{Op: "decode", Frame: gen.AnyFrame(t).Encode()})
@@ -177,6 +182,6 @@ func TestRace(t *testing.T) {
 	r := evid.Begin(t, "C10")
 	defer r.Finish()
 	evid.Rapid(r, t, "race-oplists",
-		"rapid, -race build: 2..8 goroutines each run a generated list of 3..14 operations (decode + command decode, set/validate MIC, encrypt/decrypt, GetMACPayloadAndSize, RegisterProprietaryMACCommand on goroutine-owned CIDs, band GetConfig + mutations on a local instance, yields) started together; each goroutine's results must equal the same list run alone, and any race-detector report in the process output is reported as a violation by the driver (the detector flags an unsynchronised access pair whenever both execute, not only when they collide). Non-trivial: at least one registration concurrent with a decode.",
+		"rapid, -race build: 2..8 goroutines each run a generated list of 3..14 operations (decode + command decode, set/validate MIC, encrypt/decrypt - two thirds of them with one of two key VALUES shared by all goroutines -, GetMACPayloadAndSize, RegisterProprietaryMACCommand on goroutine-owned CIDs, band GetConfig + mutations on a local instance, yields) started together; each goroutine's results must equal the same list run alone, and any race-detector report in the process output is reported as a violation by the driver (the detector flags an unsynchronised access pair whenever both execute, not only when they collide). Non-trivial: at least one registration concurrent with a decode.",
 		1500, 60000, genRace, checkRace)
 }
